@@ -436,6 +436,7 @@ PROPS = {
             {"bin": "d37_tsig_wrong_secret_rcode", "crate": "replay_tsig", "finding": "D37"},
             {"bin": "d38_tsig_unsigned_error_panics", "crate": "replay_tsig", "finding": "D38"},
             {"bin": "d9_tsig_badtime_mac", "crate": "replay_tsig", "finding": "D9"},
+            {"bin": "d58_tsig_algorithm_name_case", "crate": "replay_tsig", "finding": "D58"},
         ],
         "explanation": "contracts on the arithmetic and comparison parts of TSIG (the HMAC is ring: asm/FFI, out of reach): "
                        "Algorithm::within_len_bounds and Key::calculate_bounds accept exactly the RFC 8945 section 5.2.2.1 lengths "
